@@ -16,6 +16,7 @@ import itertools
 
 from mc import alpha
 from mc.env import guard
+from mc.state import track_extras, standard_track
 from mc.explore import bfs
 from tracklib.core.track import Track
 from tracklib.core.obs import Obs
@@ -51,6 +52,8 @@ ASSUMPTIONS = [
 N_VARIANTS = 4
 
 OBLIGATIONS = {
+    "remove_by_timestamps": "removeObsList was given timestamps instead of indices",
+    "remove_by_timestamps_from_unsorted_track": "... on a track that is not in time order",
     "calendar_sort": "sort / sortRadix on instants spread over 1970, 1999/2000, a leap day, 2038, 2069/2070 and 2099",
     "sort_radix": "Track.sortRadix was applied (same requirement as sort)",
     "pop_obs": "popObs(i) returned the designated observation and left the others",
@@ -244,7 +247,7 @@ def canon(t):
     try:
         d = _dico(t)
         names = tuple(d.items()) if d is not None else tuple(names_of(t))
-        return (names, tuple(snap(t)))
+        return (names, tuple(snap(t)), track_extras(t))
     except Exception as e:        # a broken object is reported by check_event and never expanded
         return ("unreadable", type(e).__name__)
 
@@ -256,6 +259,9 @@ def _hash64(k):
 
 def clone(t):
     """Independent copy: fresh Obs / coordinates / timestamps, same feature table."""
+    if not standard_track(t):             # an attribute this harness does not know: the generic (slower) copy
+        import copy
+        return copy.deepcopy(t)
     c = Track([], t.uid, t.tid, base=t.base)
     for o in t.getObsList():
         p, ts = o.position, o.timestamp
@@ -332,6 +338,11 @@ def events_of(root):
         if not insertion_only:
             for c in _subsets(n):
                 ev.append(("rm",) + _listing(variant, c))
+            if n >= 2 and not has_dups(S):
+                # the same removal with the observations designated by their timestamps (no repeated timestamp: unambiguous)
+                for c in _subsets(n):
+                    if 1 <= len(c) <= 2:
+                        ev.append(("rmts",) + _listing(variant, c))
         return ev
     return events
 
@@ -359,6 +370,8 @@ def apply_event_of(root):
             return t.removeLastObs()
         if k == "rm":
             return t.removeObsList(list(ev[1:]))
+        if k == "rmts":
+            return t.removeObsList([t.getObs(i).timestamp.copy() for i in ev[1:]])
         raise RuntimeError("unknown event %r" % (ev,))
 
     def apply(t, ev):
@@ -383,7 +396,7 @@ def check_event(variant, case, ev, before, after, res, ctx):
     """One mutating transition against the list model.  Returns True when the new state is as expected."""
     k = ev[0]
     name = {"ins": "insertObs", "sort": "sort", "sortradix": "sortRadix", "first": "removeFirstObs", "last": "removeLastObs",
-            "rm": "removeObsList", "pop": "popObs", "rmone": "removeObs"}[k]
+            "rm": "removeObsList", "rmts": "removeObsList-by-timestamps", "pop": "popObs", "rmone": "removeObs"}[k]
     sb = snap(before)
     nb = names_of(before)
     n = len(sb)
@@ -412,7 +425,11 @@ def check_event(variant, case, ev, before, after, res, ctx):
             ctx.oblige("sort_reverse_sorted")
         if dups and not srt:
             ctx.oblige("sort_with_duplicates")
-    elif k == "rm":
+    elif k in ("rm", "rmts"):
+        if k == "rmts":
+            ctx.oblige("remove_by_timestamps")
+            if not is_sorted(sb):
+                ctx.oblige("remove_by_timestamps_from_unsorted_track")
         idx = list(ev[1:])
         si = sorted(idx)
         cls = "empty-list" if not idx else ("all" if len(idx) == n else
